@@ -13,6 +13,9 @@ D = fm.adapters
 WORK = os.path.join(VERIF, "work", "C10")
 
 KINDS = ["direct", "Next", "Previous", "Linear", "Step", "Avg", "AvgStep", "Sum", "SumAbs", "SumLin"]
+# the same buffering adapters followed by a fixed delay (requests are clamped to the start time at first: the adapter is asked for its
+# first buffered time again and again while more data arrives), and a delay upstream of the adapter
+DELAYED = ["Next+D", "Linear+D", "Step+D", "Avg+D", "AvgStep+D", "Sum+D", "SumAbs+D", "D+Linear", "direct+D"]
 PAYLOADS = ["scalar", "grid", "masked"]
 
 
@@ -121,7 +124,18 @@ def listing(root):
     return sorted(out)
 
 
-def run_one(kind, pk, limit, steps, end, tag, via="composition"):
+def chain_for(kind):
+    parts = kind.split("+")
+    out = []
+    for p in parts:
+        if p == "D":
+            out.append(D.DelayFixed(H(2)))
+        elif p != "direct":
+            out.append(mk_adapter(p))
+    return out
+
+
+def run_one(kind, pk, limit, steps, end, tag, via="composition", order="PC"):
     """returns (series | ('EXC', cls, msg), files_outside, files_left, spilled_files_seen)"""
     wd = os.path.join(WORK, tag)
     shutil.rmtree(wd, ignore_errors=True)
@@ -139,19 +153,19 @@ def run_one(kind, pk, limit, steps, end, tag, via="composition"):
                 outside.add(f)
 
     Prod.watch = staticmethod(watch)
-    units = "mm/h" if kind in ("Sum", "SumLin") else "m"
+    units = "mm/h" if kind.split("+")[0] in ("Sum", "SumLin") or kind.endswith("+Sum") else "m"
     try:
         p, c = Prod(pk, steps[0], units), Cons(pk, steps[1])
-        comp = compose([p, c], slot_memory_limit=limit if via == "composition" else None, slot_memory_location=loc)
-        a = mk_adapter(kind)
+        comp = compose([p, c] if order == "PC" else [c, p], slot_memory_limit=limit if via == "composition" else None, slot_memory_location=loc)
+        ads = chain_for(kind)
         if via == "slot":  # limit given per slot, location composition-wide
             p.outputs["o"].memory_limit = limit
-            if a is not None:
+            for a in ads:
                 a.memory_limit = limit
-        if a is None:
-            p.outputs["o"] >> c.inputs["i"]
-        else:
-            p.outputs["o"] >> a >> c.inputs["i"]
+        cur = p.outputs["o"]
+        for a in ads:
+            cur = cur >> a
+        cur >> c.inputs["i"]
         try:
             comp.run(end_time=T0 + H(end))
             res = c.series
@@ -196,7 +210,8 @@ def run_case(case):
     res = dict(n=0, nontrivial=0, counters={}, violations=[])
     cnt = res["counters"]
     via = case.get("via", "composition")
-    ref, out0, left0, _ = run_one(kind, pk, None, steps, end, tag)
+    order = case.get("order", "PC")
+    ref, out0, left0, _ = run_one(kind, pk, None, steps, end, tag, "composition", order)
     size = 8 if pk == "scalar" else 48
     lims = case.get("limits") or limits_for(size, case["nmax"])
     if isinstance(ref, tuple):
@@ -204,13 +219,13 @@ def run_case(case):
         return res
     for lim in lims:
         res["n"] += 1
-        got, outside, left, nseen = run_one(kind, pk, lim, steps, end, tag, via)
+        got, outside, left, nseen = run_one(kind, pk, lim, steps, end, tag, via, order)
         if nseen:
             res["nontrivial"] += 1
             cnt["runs_that_spilled"] = cnt.get("runs_that_spilled", 0) + 1
         one = dict(case, limits=[lim])
         diff = same_series(ref, got)
-        slot = "output" if kind == "direct" else "adapter:" + kind
+        slot = "output" if kind.startswith("direct") else "adapter:" + kind
         if diff:
             detail = got[1] + ": " + got[2] if isinstance(got, tuple) else diff
             fp = dict(kind="series_differs_from_unlimited_run", how=diff, masked=pk == "masked")
@@ -222,7 +237,7 @@ def run_case(case):
         if outside:
             res["violations"].append(viol(dict(kind="file_outside_spill_location"), f"{slot} limit={lim}: files {outside[:3]}", one))
         if left and not isinstance(got, tuple):
-            res["violations"].append(viol(dict(kind="spill_files_left_after_finalize", slot="output" if kind == "direct" else "adapter"), f"{slot} payload={pk} limit={lim}: {len(left)} files left, e.g. {left[:2]}", one))
+            res["violations"].append(viol(dict(kind="spill_files_left_after_finalize", slot="output" if kind.startswith("direct") else "adapter"), f"{slot} payload={pk} limit={lim}: {len(left)} files left, e.g. {left[:2]}", one))
     res["sample"] = dict(kind=kind, payload=pk, steps=steps, end=end, limits=lims[:6], series_len=len(ref))
     return res
 
@@ -238,6 +253,8 @@ def run(tier, seed, agg):
     end = ends
     cases = [dict(kind=k, payload=p, steps=list(s), end=e, nmax=4 if q else 7, via="composition") for k in KINDS for p in PAYLOADS for s in pairs for e in ends]
     cases += [dict(kind=k, payload=p, steps=list(s), end=7, nmax=2 if q else 4, via="slot") for k in KINDS for p in PAYLOADS for s in ((1, 1), (1, 2), (3, 2))]
+    cases += [dict(kind=k, payload=p, steps=list(s), end=8, nmax=3 if q else 5, via="composition", order=o) for k in DELAYED for p in PAYLOADS for s in ((1, 1), (1, 2), (2, 1), (1, 3), (3, 2)) for o in ("PC", "CP")]
+    cases += [dict(kind=k, payload="grid", steps=list(s), end=7, nmax=3, via="composition", order="CP") for k in KINDS for s in ((1, 1), (1, 2), (2, 3))]
     k = seed % len(cases)
     cases = cases[k:] + cases[:k]
     os.makedirs(WORK, exist_ok=True)
@@ -248,7 +265,7 @@ def run(tier, seed, agg):
         shutil.rmtree(WORK, ignore_errors=True)
     return dict(
         level="fault_enumeration",
-        rule="slot kind {output, Next, Previous, Linear, Step, Avg, Avg(step), Sum(per_time), Sum(absolute), Sum(linear)} x payload {scalar, 2x3 grid, 2x3 masked} x step pair x memory limit in "
+        rule="slot kind {output, Next, Previous, Linear, Step, Avg, Avg(step), Sum(per_time), Sum(absolute), Sum(linear); the same followed by DelayFixed(2h), DelayFixed upstream of LinearTime; both listing orders} x payload {scalar, 2x3 grid, 2x3 masked} x step pair x memory limit in "
         "{0,1,s-1,s,s+1,...,Ns+1} (every prefix of publications kept in RAM, off-by-one around each threshold), each run through the real Composition and compared with the run without limit; "
         "limit given composition-wide or per slot (with the composition-wide location); directory listing observed around every producer update and after run(). non-trivial = runs in which at least one spill file was observed",
         bound=dict(horizon_h=end, step_pairs=pairs, N=4 if q else 7),
